@@ -317,6 +317,16 @@ def _work(task):
     return acc
 
 
+
+def _disturb_task(_):
+    from ..explore import disturb
+
+    acc = Acc()
+    acc.count("disturbance_rounds", 7)
+    for core, detail in disturb.differential('generated-problems', disturb.generator_battery):
+        acc.violation(core, {"disturb": True}, detail)
+    return acc
+
 def run(tier, seed):
     _SETTINGS[:] = settings(tier)
     bound = 1 if tier == "quick" else 2
@@ -333,6 +343,7 @@ def run(tier, seed):
     tasks = tasks[k:] + tasks[:k]
     # one freshly forked process per task: module-level state of the generators depends only on the task
     acc = merge_all(par.pmap(_work, tasks, fresh=True))
+    acc.merge(par.run_fresh(_disturb_task, None))  # differential: a fixed battery before / after unrelated calls
     cov = {
         "states": acc.n["executions"],
         "transitions": acc.n["choice_points"],
@@ -362,6 +373,9 @@ def _reexplore_setting(case):
 
 
 def replay(case):
+    if isinstance(case, dict) and case.get("disturb"):
+        from ..explore import disturb
+        return disturb.differential('generated-problems', disturb.generator_battery)
     """the recorded execution on its own; if it does not reproduce (module-level state left behind by earlier
     executions of the same setting), the whole setting is re-explored in a freshly forked process"""
     want = case.get("_core")
